@@ -335,6 +335,113 @@ func doBuilt(seed uint64, n int) {
 	}
 }
 
+// boxCheck: the per-node oracle (bytes written = Size() before = after, size field = bytes written,
+// Encode = EncodeSW, Encode twice) on an API-built box.
+func boxCheck(b mp4.Box, how string) {
+	var fs []bx.Fail
+	bx.SizeAtEveryNode(b, b.Type(), how, &fs, &evals)
+	for _, f := range fs {
+		fail(f.Site+"(built)", f.Class, f.Witness, f.Desc)
+	}
+}
+
+// doBuiltBoxes: boxes made with the public constructors, every optional-field flag combination.
+func doBuiltBoxes(seed uint64) {
+	r := hx.NewRng(seed + 11)
+	trunBits := []uint32{1, 4, 0x100, 0x200, 0x400, 0x800}
+	for m := 0; m < 64; m++ {
+		var fl uint32
+		for i, b := range trunBits {
+			if m&(1<<uint(i)) != 0 {
+				fl |= b
+			}
+		}
+		for _, ver := range []byte{0, 1} {
+			for _, n := range []int{0, 1, 4} {
+				t := mp4.CreateTrun(0)
+				t.Version = ver
+				t.Flags = fl &^ 4
+				t.DataOffset = 120
+				if fl&4 != 0 {
+					t.SetFirstSampleFlags(0x02000000)
+				}
+				for i := 0; i < n; i++ {
+					t.AddSample(mp4.Sample{Flags: 0x01010000, Dur: uint32(1000 + i), Size: uint32(10 + i), CompositionTimeOffset: int32(i - 2)})
+				}
+				boxCheck(t, fmt.Sprintf("CreateTrun; Version=%d Flags=%#x (SetFirstSampleFlags if 0x4) DataOffset=120; %d x AddSample", ver, fl, n))
+			}
+		}
+	}
+	tfhdBits := []uint32{1, 2, 8, 16, 32, 0x10000, 0x20000}
+	for m := 0; m < 128; m++ {
+		var fl uint32
+		for i, b := range tfhdBits {
+			if m&(1<<uint(i)) != 0 {
+				fl |= b
+			}
+		}
+		t := mp4.CreateTfhd(uint32(1 + m%3))
+		t.Flags = fl
+		t.BaseDataOffset, t.SampleDescriptionIndex, t.DefaultSampleDuration, t.DefaultSampleSize, t.DefaultSampleFlags = 1<<33, 2, 3000, 99, 0x01010000
+		boxCheck(t, fmt.Sprintf("CreateTfhd; Flags=%#x", fl))
+	}
+	for _, v := range []uint64{0, 1, 0xffffffff, 1 << 32, 1 << 50} {
+		boxCheck(mp4.CreateTfdt(v), fmt.Sprintf("CreateTfdt(%d)", v))
+		t := mp4.CreateTfdt(5)
+		t.SetBaseMediaDecodeTime(v)
+		boxCheck(t, fmt.Sprintf("CreateTfdt(5).SetBaseMediaDecodeTime(%d)", v))
+		sx := mp4.CreateSidx(v)
+		for q := 0; q < int(v%3); q++ {
+			sx.SidxRefs = append(sx.SidxRefs, mp4.SidxRef{ReferencedSize: 1000, SubSegmentDuration: 90000, StartsWithSAP: 1, SAPType: 1})
+		}
+		sx.EarliestPresentationTime = v
+		boxCheck(sx, fmt.Sprintf("CreateSidx(%d) + %d refs", v, v%3))
+		for _, ver := range []byte{0, 1} {
+			boxCheck(mp4.CreatePrftBox(ver, 24, 1, mp4.NTP64(1<<40), v), fmt.Sprintf("CreatePrftBox(version %d, mediatime %d)", ver, v))
+		}
+	}
+	boxCheck(mp4.CreateMfhd(7), "CreateMfhd(7)")
+	boxCheck(mp4.CreateTrex(2), "CreateTrex(2)")
+	boxCheck(mp4.CreateMvhd(), "CreateMvhd()")
+	boxCheck(mp4.CreateTkhd(), "CreateTkhd()")
+	boxCheck(mp4.CreateFtyp(), "CreateFtyp()")
+	boxCheck(mp4.CreateStyp(), "CreateStyp()")
+	for _, mt := range []string{"video", "audio", "subtitles", "text", "meta", "vide", "soun", "clcp"} {
+		if h, err := mp4.CreateHdlr(mt); err == nil {
+			boxCheck(h, "CreateHdlr("+mt+")")
+		}
+	}
+	// fragments whose trun carries first-sample flags next to the other per-sample fields
+	for i := 0; i < 40; i++ {
+		fr, err := mp4.CreateFragment(uint32(i+1), 1)
+		if err != nil {
+			continue
+		}
+		for _, s := range randSamples(r, r.Range(1, 5), r.Bool()) {
+			fr.AddFullSample(s)
+		}
+		tr := fr.Moof.Traf.Trun
+		how := fmt.Sprintf("CreateFragment + AddFullSample x %d", tr.SampleCount())
+		if i%2 == 0 {
+			tr.SetFirstSampleFlags(0x02000000)
+			how += " + Trun.SetFirstSampleFlags"
+		}
+		if i%4 >= 2 {
+			tr.Flags &^= 0x800
+			how += " (no cto flag)"
+		}
+		opt := i%8 >= 4
+		if opt {
+			fr.EncOptimize = mp4.OptimizeTrun
+			how += " OptimizeTrun"
+		}
+		g := fr
+		history(agg{"Fragment(built)", g.Size, func(b *bytes.Buffer) error { return g.Encode(b) }, g.EncodeSW,
+			func(b *bytes.Buffer) error { return g.Info(b, "all:1", "", "  ") }}, how, opt)
+		boxCheck(g.Moof, how+" -> Moof after Encode")
+	}
+}
+
 func main() {
 	if len(os.Args) < 2 || os.Args[1] != "search" {
 		fmt.Fprintln(os.Stderr, "usage: c02 search -seed S -n N")
@@ -348,6 +455,7 @@ func main() {
 	defer out.Flush()
 	nf := doFiles(*repo)
 	doBuilt(*seed, *n)
+	doBuiltBoxes(*seed)
 	fmt.Fprintf(out, "STAT\tfile_decodes=%d built=%d\n", nf, *n)
 	fmt.Fprintf(out, "EVALS\t%d\n", evals)
 }
